@@ -277,6 +277,20 @@ func histories(r *monitor.Run, kind string, idx int, rng *rand.Rand, nAttempts, 
 		r.Inconclusive(err.Error())
 		return
 	}
+	// an account whose stored value is not a hash of the configured algorithm (password file kept from another
+	// configuration): nothing verifies against it, whatever the verification routine reports
+	legacy := kind != auth.Plain
+	if legacy {
+		f, err := os.OpenFile(pwFile, os.O_APPEND|os.O_WRONLY, 0o600)
+		if err == nil {
+			stored := hashOf(auth.MD5, "legacy-pw")
+			if kind == auth.MD5 {
+				stored = "$2a$04$not.a.valid.bcrypt.hash"
+			}
+			fmt.Fprintf(f, "- username: %q\n  password: %q\n", "legacy", stored)
+			f.Close()
+		}
+	}
 	b, a, err := startBroker(kind, pwFile, "", true)
 	if err != nil {
 		r.Violation("startup.preloaded_file:hash="+kind, "broker does not start on a password file written with independently computed hashes: "+err.Error(), nil)
@@ -284,6 +298,13 @@ func histories(r *monitor.Run, kind string, idx int, rng *rand.Rand, nAttempts, 
 	}
 	defer func() { b.Stop(step) }()
 	seq := 0
+	if legacy {
+		for i, pw := range []string{"legacy-pw", "", "x", hashOf(auth.MD5, "legacy-pw"), "$2a$04$not.a.valid.bcrypt.hash"} {
+			seq++
+			checkAttempt(r, b, accounts, kind, Attempt{V: []byte{4, 5}[i%2], HasUser: true, HasPass: true, User: "legacy", Pass: pw, PassDesc: "foreign_stored_hash", Clean: true}, fmt.Sprintf("h%d-%d", idx, seq), "account whose stored value is not a hash of the configured algorithm")
+		}
+		r.Count("foreign_hash_attempts", 5)
+	}
 	former := map[string]string{} // deleted accounts or replaced passwords: user -> credential that once was valid
 	formerAttempts := func(ctx string) {
 		users := make([]string, 0, len(former))
@@ -365,8 +386,12 @@ func histories(r *monitor.Run, kind string, idx int, rng *rand.Rand, nAttempts, 
 	// List/Get agree with the model
 	lr, err := a.List(context.Background(), &auth.ListAccountsRequest{PageSize: 100, Page: 1})
 	if err == nil {
-		if int(lr.TotalCount) != len(accounts) {
-			r.Violation("account.list_count", fmt.Sprintf("List reports %d accounts, model has %d", lr.TotalCount, len(accounts)), nil)
+		want := len(accounts)
+		if legacy {
+			want++
+		}
+		if int(lr.TotalCount) != want {
+			r.Violation("account.list_count", fmt.Sprintf("List reports %d accounts, model has %d", lr.TotalCount, want), nil)
 		}
 	}
 	attempts(nAttempts/2, "after the account history")
